@@ -1204,6 +1204,18 @@ func (gen *Generator) GenerateSyntaxQuote(args []Sexp) error {
 	}
 	arg := args[0]
 
+	// the code of a template only produces the operands that squash,
+	// vectorize or hashize rebuild it from: an unquoted self-call is not
+	// in tail position, it must return here instead of jumping to the
+	// prologue (which dropped the surrounding template).
+	oldtail := gen.Tail
+	gen.Tail = false
+	err := gen.generateSyntaxQuoteArg(arg)
+	gen.Tail = oldtail
+	return err
+}
+
+func (gen *Generator) generateSyntaxQuoteArg(arg Sexp) error {
 	// need to handle arrays, since they can have unquotes
 	// in them too.
 	switch aaa := arg.(type) {
